@@ -89,6 +89,9 @@ def wide_nodes(ck, binary, tier):
             raise Inconclusive("wide case %d not replayed" % i)
         ck.evaluations += 1
         cid = {"subject_sets_on_node": c["n"], "directly_containing_the_subject": c["found"]}
+        if ob.get("traversal_timeout") or any(ob.get("check_%s_timeout" % w) for w in ("u", "v", "nobody")):
+            ck.violation("a traversal or check on a node with %d subject sets had not finished after 10 s" % c["n"], dict(cid, error=ob.get("error", "")[:200]))
+            continue
         if ob.get("error"):
             ck.violation("traversal failed: " + ob["error"][:200], cid)
             continue
@@ -309,6 +312,8 @@ def c02(tier):
     for f in known:
         if f["id"] not in ck.known_hits and not ck.violations:
             raise Inconclusive("known finding %s did not reproduce on its witness: remove it from known_findings.json" % f["id"])
+    import p_reconf
+    p_reconf.reconf(ck, binary, tier, "C02")
     ck.extra["clamp_comparisons"] = clamp_cases
     ck.extra["batch_entry_comparisons"] = batch_cmp
     ck.rule = ("cases of CheckCases.tla at every depth 1..%d and width, plus out-of-range request depths and a second "
@@ -453,6 +458,22 @@ def c15(tier):
         for k, n in enumerate(r.get("fn", []), 1):
             if n > line["mc"][r["d"] - 1] + 0:
                 ck.violation("storage calls under a fault exceed the bound", dict(case_id(g, r["w"], r["q"], r["d"], defs), calls=n, bound=line["mc"][r["d"] - 1]))
+    # 4. very wide nodes: the paging loop of the storage layer ends, after ceil((n+1)/1000) statements
+    wide = [(999, []), (1000, []), (1001, [1001]), (2001, [])] if tier == "quick" else [(999, []), (1000, []), (1000, [1000]), (1001, [1001]), (2000, []), (2001, []), (3001, [2999])]
+    recs = {x["case"]: x for x in run_harness(binary, "traverse", {"cases": [{"n": n, "found": f} for n, f in wide]})}
+    for i, (n, f) in enumerate(wide):
+        ob = recs.get(i)
+        if ob is None:
+            raise Inconclusive("wide case %d not replayed" % i)
+        ck.evaluations += 1
+        cid = {"subject_sets_on_node": n, "directly_containing_the_subject": f}
+        first = min(f) if f else n
+        bound = first // 1000 + 1
+        if ob.get("traversal_timeout") or any(ob.get("check_%s_timeout" % w) for w in ("u", "v", "nobody")):
+            ck.violation("a traversal or check on a node with %d subject sets had not finished after 10 s" % n, dict(cid, error=ob.get("error", "")[:200]))
+        elif ob["traversal_statements"] > bound:
+            ck.violation("the traversal of a node with %d subject sets issued %d statements (bound %d)" % (n, ob["traversal_statements"], bound), cid)
+        ck.nontrivial.add(("wide", n, tuple(f)))
     checkgroup_model(ck, tier)
     cg_traces(ck, binary, defs, groups[: (40 if tier == "quick" else 200)], dmax, tier)
     ck.extra["cancellations_through_api_handlers"] = transport_cancels[0]
